@@ -485,5 +485,50 @@ fn batch_verify(
 // ---- end of extracted text ----
 }
 
+// ---- dispatch: protocol/aggregate_signature/signature.rs ---------------------------------------------------------------
+#[verifier::external_body] pub struct AncillaryVerifierData { _p: core::marker::PhantomData<u8> }
+#[verifier::external_body] pub struct GenesisVerificationKeyBundle { _p: core::marker::PhantomData<u8> }
+pub struct AggregateVerificationKey { pub concatenation_aggregate_verification_key: AggregateVerificationKeyForConcatenation }
+impl AggregateVerificationKey {
+// ---- extracted from mithril-stm/src/protocol/aggregate_signature/aggregate_key.rs:38 (fn to_concatenation_aggregate_verification_key) ----
+fn to_concatenation_aggregate_verification_key(
+        &self,
+    ) -> (ret: &AggregateVerificationKeyForConcatenation)
+    ensures *ret == self.concatenation_aggregate_verification_key
+{
+        &self.concatenation_aggregate_verification_key
+    }
+// ---- end of extracted text ----
+}
+pub enum AggregateSignature { Concatenation(ConcatenationProof) }
+impl AggregateSignature {
+// ---- extracted from mithril-stm/src/protocol/aggregate_signature/signature.rs:161 (fn verify) ----
+fn verify(
+        &self,
+        msg: &[u8],
+        avk: &AggregateVerificationKey,
+        parameters: &Parameters,
+        ancillary_verifier_data: Option<AncillaryVerifierData>,
+        genesis_verification_key_bundle: Option<GenesisVerificationKeyBundle>,
+    ) -> (ret: Result<(), AggregationError>)
+    requires self is Concatenation ==> flat(self->Concatenation_0.signatures@, self->Concatenation_0.signatures@.len() as int).len() <= usize::MAX
+    ensures ret is Ok && self is Concatenation ==> preliminary_ok(&self->Concatenation_0, msg@ + commitment_root(&avk.concatenation_aggregate_verification_key.mt_commitment), &avk.concatenation_aggregate_verification_key, parameters)
+        && bls_aggregate_valid(msg@ + commitment_root(&avk.concatenation_aggregate_verification_key.mt_commitment), member_vks(&self->Concatenation_0), member_sigmas(&self->Concatenation_0))
+{
+        let _ = &ancillary_verifier_data;
+        let _ = &genesis_verification_key_bundle;
+        match self {
+            AggregateSignature::Concatenation(concatenation_proof) => concatenation_proof.verify(
+                msg,
+                avk.to_concatenation_aggregate_verification_key(),
+                parameters,
+            ),
+            
+            
+        }
+    }
+// ---- end of extracted text ----
+}
+
 } // verus!
 fn main() {}
